@@ -436,6 +436,10 @@ func semaSection(u *Universe, r *Report, fn *ssa.Function, owner, acquire string
 		if calleeName(def) == "Release" {
 			df = nil
 		}
+		if df != nil {
+			flatRoot(df)
+			defer flatRoot(fn)
+		}
 		good := false
 		if df != nil {
 			var rel, np, dl ssa.CallInstruction
